@@ -127,6 +127,7 @@ type Engine struct {
 	mu          sync.Mutex
 	obligations []Obligation
 	reaches     []ReachRec
+	emits       []EmitRec
 	aborts      map[string]int
 	pathsDone   int64
 	pathsInfeas int64
